@@ -211,6 +211,7 @@ func (w *Walker) onComplete(node model.BuildNode, completion Completion) {
 		if w.failFast {
 			w.failFastTriggered = true
 			w.allCancel()
+			verifhook.Emit("walk.ffcancel")
 			w.cancelAll()
 		} else {
 			// Cancel *all* descendants if the node failed
